@@ -130,7 +130,7 @@ SPEC = {
         "(a data race with a concurrent Set of the same key on maps with non-empty values) is outside the property",
     ],
     "manifest": {
-        "text": "Round 6 (owner): regenerated METHOD SETS of set / readableSet / SerializableOrderedMap / OrderedMap through the embedding chain (harness/c11/methodset: name, declaring type, depth; C11_methodset_*: a set.Delete that silently becomes the promoted OrderedMap.Delete is a broken obligation naming the method), the per-method table 'takes applyMutex R / W / not at all' computed in Lean from the regenerated skeleton of each declaring method (C11_applymutex_table), no re-entry and the unlocked helper only under the exclusive lock derived from the same facts (C11_no_reentrant_applymutex), every selectable method mapped to the lock scripts the deadlock-freedom and atomicity theorems quantify over (C11_methodset_modelled), skeletons of the whole read side and of Encode/Decode; Decode of any bytes into any receiver, success or failure (C11_codec_decode_into_receiver: fold of Set over the decoded entries, old keys stay a prefix); directed schedules 'inside' (two single-element calls inside an Apply halfway through / inside Compute's factory) and 'race' (bulk call + three single calls on one element, exactly one reporter), oracle compute-atomic (a Compute reports what its factory saw), aliasing probes for returned diffs, a watchdog that turns a sequential call that never returns into a replayable deadlock finding; s.AddAll(s) / s.Apply(+s) at pointer level (C11_alias_addall), the map and dictionary mutexes are leaves, derived from the regenerated skeletons (C11_no_nested_leaf_mutex). " \
+        "text": "Round 6 (owner): regenerated METHOD SETS of set / readableSet / SerializableOrderedMap / OrderedMap through the embedding chain (harness/c11/methodset: name, declaring type, depth; C11_methodset_*: a set.Delete that silently becomes the promoted OrderedMap.Delete is a broken obligation naming the method), the per-method table 'takes applyMutex R / W / not at all' computed in Lean from the regenerated skeleton of each declaring method (C11_applymutex_table), no re-entry and the unlocked helper only under the exclusive lock derived from the same facts (C11_no_reentrant_applymutex), every selectable method mapped to the lock scripts the deadlock-freedom and atomicity theorems quantify over (C11_methodset_modelled), skeletons of the whole read side and of Encode/Decode; Decode of any bytes into any receiver, success or failure (C11_codec_decode_into_receiver: fold of Set over the decoded entries, old keys stay a prefix); every unordered pair of the 26 ds.Set interface methods run concurrently under pending-writer pressure ('pairs', 351 pairs, every call returns), directed schedules 'inside' (two single-element calls inside an Apply halfway through / inside Compute's factory / between Replace's reads and its Clear; the factory's own observation is part of the recorded history: SOp.computeSaw) and 'race' (bulk call + three single calls on one element, exactly one reporter), oracle compute-atomic (a Compute reports what its factory saw), aliasing probes for returned diffs, a watchdog that turns a sequential call that never returns into a replayable deadlock finding; s.AddAll(s) / s.Apply(+s) at pointer level (C11_alias_addall), the map and dictionary mutexes are leaves, derived from the regenerated skeletons (C11_no_nested_leaf_mutex). " \
                 "Round 6: the entry-count field of the codec as a field of w bytes (C11_count_prefix_roundtrip for every w, C11_count_prefix_wraps: sharp at 256^w entries, C11_count_prefix_is_four_bytes + regenerated statements of SerializableOrderedMap.Encode/Decode), sets of 65535..65543 elements through the real codec (wbig), directed single-element-call-inside-Replace scenario (overlap). " \
                 "Lean 4 theorems over every operation history: the ordered map's iteration order is the first-insertion order of the live keys "
                 "(C11_omap_order, by refinement from a pointer-level model of the hash index + doubly linked chain, C11_omap_refines), "
